@@ -407,7 +407,7 @@ fn gen_send(wd: &World, rng: &mut Rng) -> Option<Action> {
 		(0, 0)
 	};
 	// C04: in profile `receive` a third of the payments carry a flaw the recipient must refuse
-	let flaw = if wd.cfg.profile == "receive" && rng.chance(1, 3) { 1 + rng.below(4) as u8 } else { 0 };
+	let flaw = if wd.cfg.profile == "receive" && rng.chance(1, 3) { 1 + rng.below(5) as u8 } else { 0 };
 	Some(Action::Send { from, to, paths, amts, fee_delta_msat: fee_delta, cltv_delta_adj: cltv_adj, flaw })
 }
 
